@@ -963,6 +963,87 @@ def diff_families(chk, tool, shim, base, rng, tier):
     return stats
 
 
+def diff_skip_after_write_fault(chk, tool, shim, base, rng, caches=(1, 3, 8, 128)):
+    """a parity write fails with EIO and the FOLLOWING stripes need no parity update (EMPTY writer tasks): only one
+    block of a multi-block file is rewritten in place, other files get new time-stamps with identical data.  The error
+    must be reported exactly once and exactly the failed stripe marked bad, at every depth and schedule."""
+    stats = {'variants': 0}
+    if not shim:
+        return stats
+    env0 = {'LD_PRELOAD': shim}
+    for np_ in (1, 2):
+        d = os.path.join(base, 'arr_skip%d' % np_)
+        os.makedirs(d)
+        arr = Array(d, 2, np_, rng.randrange(1, 10 ** 6))
+        arr.fresh()
+        pdir = os.path.join(arr.work, 'p')
+        rc, out, tags = run_tool(tool, arr, 1, ['sync'], env0)
+        if rc != 0:
+            chk.notes.append('skip scenario could not be prepared (sync rc %s)' % rc)
+            continue
+        # position of every d0 file (files are allocated in name order from position 0)
+        pos, at = {}, 0
+        for name, sz in arr.files:
+            if name.startswith('d0/'):
+                pos[name] = at
+                at += (sz + 1023) // 1024
+        multi = [(n, sz) for n, sz in arr.files if n.startswith('d0/') and sz >= 3 * 1024]
+        if not multi:
+            chk.notes.append('skip scenario: no file of 3 blocks on d0 (array seed %d)' % arr.seed)
+            continue
+        vict, vsz = multi[len(multi) // 2]
+        vpath = os.path.join(arr.work, vict)
+        data = bytearray(open(vpath, 'rb').read())
+        data[10] ^= 0x5a                                  # only block 0 of the file changes
+        _rewrite(vpath, bytes(data), 1500005000)
+        for name, sz in arr.files:                        # same data, new time-stamp: re-hashed, parity not updated
+            if name != vict and sz >= 1024 and name.startswith(('d0/', 'd1/')) and rng.random() < 0.5:
+                os.utime(os.path.join(arr.work, name), (1500005000, 1500005000))
+        for k in range(arr.nd):
+            os.utime(os.path.join(arr.work, 'd%d' % k), (1500000000, 1500000000))
+        fail_pos = pos[vict]
+        save = os.path.join(arr.base, 'save_skip')
+        shutil.copytree(pdir, save, copy_function=shutil.copy2)
+        fault = {'C13_WEIO_PATH': '/p/par0', 'C13_WEIO_OFF': str(fail_pos * 1024)}
+        descr0 = {'array': {'nd': 2, 'np': np_, 'seed': arr.seed},
+                  'scenario': 'sync; flip one byte of block 0 of %s (position %d, %d blocks) with a new mtime, touch other files; sync with pwrite EIO on par0 at offset %d'
+                              % (vict, fail_pos, (vsz + 1023) // 1024, fail_pos * 1024)}
+        modes = [('plain', {})] + [('yield%d' % y, {'SNAPRAID_VERIF_YIELD': str(y)}) for y in (1, 2, 3)]
+        ref = None
+        for cache in caches:
+            for mname, menv in modes:
+                if cache == 1 and mname != 'plain':
+                    continue
+                shutil.rmtree(pdir)
+                shutil.copytree(save, pdir, copy_function=shutil.copy2)
+                env = dict(env0)
+                env.update(fault)
+                env.update(menv)
+                rc, out, tags = run_tool(tool, arr, cache, ['sync'], env, timeout=30)
+                stats['variants'] += 1
+                descr = dict(descr0, io_cache=cache, mode=mname, env=dict(fault, **menv))
+                if rc == 'timeout':
+                    chk.violation('hang_diff_skip_%d' % cache, 'sync with a failing parity write does not terminate (--test-io-cache %d, %s)' % (cache, mname), descr)
+                    return stats
+                bad = bad_marks(tool, arr, env0)
+                summ = dict(t.split(':')[1:3] for t in tags if t.startswith('summary:error_'))
+                perr = [t for t in tags if t.startswith('parity_error:')]
+                if summ.get('error_io') != '1' or bad != [fail_pos] or rc != 1 or len(perr) != 1:
+                    chk.violation('diff_skip_expected_%d_%s_np%d' % (cache, mname, np_),
+                                  'sync --test-io-cache %d (%s): ONE parity write fails (EIO at position %d) and the following stripes need no parity update; expected error_io=1, bad marks [%d], '
+                                  'one parity_error tag, exit 1; got error_io=%s bad marks %s, %d parity_error tags, exit %s: a writer error is reported more than once / against skipped stripes'
+                                  % (cache, mname, fail_pos, fail_pos, summ.get('error_io'), bad, len(perr), rc), dict(descr, tags=tags[:40], bad=bad))
+                cur_ = (rc, tags, bad, arr.snapshot())
+                if ref is None:
+                    ref = (cur_, cache, mname)
+                elif cur_ != ref[0]:
+                    what = 'exit status' if rc != ref[0][0] else ('error/summary tags' if tags != ref[0][1] else ('bad marks' if bad != ref[0][2] else 'parity/content files'))
+                    chk.violation('diff_skip_state_%d_%s_np%d' % (cache, mname, np_),
+                                  'sync with a failing parity write followed by skipped stripes: %s differ between (--test-io-cache %d, %s) and (--test-io-cache %d, %s)'
+                                  % (what, ref[1], ref[2], cache, mname), dict(descr, a=ref[0], b=cur_))
+    return stats
+
+
 def build_tsan(snap):
     cflags = ['-O1', '-g', '-D' + GUARD, '-fsanitize=thread', '-fno-omit-frame-pointer']
     objs = _compile_many_tsan(snap, cflags)
@@ -1117,6 +1198,7 @@ def main(tier, replay=None):
         dstats['scrub_cross'] = diff_scrub_cross(chk, tool, shim, base, rng)
         dstats['autosave'] = diff_autosave(chk, tool, shim, arrays[1 if len(arrays) > 1 else 0])
         dstats['families'] = diff_families(chk, tool, shim, base, rng, tier)
+        dstats['skip_after_write_fault'] = diff_skip_after_write_fault(chk, tool, shim, base, rng)
         if tier == 'thorough':
             for _ in range(4):
                 sub = os.path.join(base, 'more%d' % _)
@@ -1161,6 +1243,7 @@ def main(tier, replay=None):
         'ASSUMED, only tested: the per-stripe computation of sync.c/scrub.c is independent of the order in which io_data_read returns the disks (rehandle[], failed[] are indexed by disk, the failed list is sorted) -- tested by the pending-rehash scenario under yield seeds and a slowed disk (LD_PRELOAD pread delay), content files compared and a following check required clean',
         'ASSUMED, only tested (no Coq model of scrub.c state_scrub_process here; the ring model stops at handing tasks to the caller): the classification of the block of disk j in a stripe (file error vs silent data error, bad mark) depends only on disk j own file/block state, not on the other disks of the stripe nor on their arrival order -- tested by the cross-disk scrub scenario (touched file and silent error on different disks of one stripe, both disk orders), compared across depths 1/3/8/128, yield seeds, one slowed disk at a time, and against the expected classification and bad marks',
         'exercised by oracle only (cache-depth differential incl. default depth, no Coq model): continuation after open/read faults of a data disk (ENOENT, EIO) in sync, scrub and test-dry, parity read EIO in scrub/test-dry, parity WRITE EIO in sync at a middle stripe, before an autosave and at the last stripe (io_writer_bad / io_write_bad bad marks), scrub plans new/auto/even/force-at/bad/percent, scrub and sync and sync -h with a pending rehash, silent errors recovered by sync under a pending rehash, silent parity corruption in synced and in time-stamp-unsynced stripes, sync over bad marks, sync -h (pre-hash), sync -F, deallocation of deleted blocks, io statistics (io_refresh) under a ticking clock',
+        'exercised by oracle only (the ring model has no error field: a writer reports the state of its last task to io_writer_step, and DONE after an EMPTY task): a failed parity write is counted exactly once and exactly its stripe is marked bad, also when EMPTY (skipped) writer tasks follow it -- scenario skip_after_write_fault, depths 1/3/8/128 x yield seeds, compared with mono and with the injected failure',
         'not reached on purpose: fatal / LCOV_EXCL branches (TASK_STATE_IOERROR/ERROR bail-outs, io error limit, close errors), O_DIRECT buffers (io.c:1159), the IO_MIN clamp of the default depth (io.c:1138, needs blocks above 5 MiB), the conf-file autosave of scrub (granularity is GB), EACCES, attribute/data change racing with the command',
         'io_refresh_thread (progress display only) and the mono-thread variants (io_max = 1, trivially sequential) are not in the model; io_max = 1 is covered by the differential runs']
     return chk.finish()
